@@ -374,6 +374,158 @@ def canon_impl(d):
     return d
 
 
+# ---------------------------------------------------------------- exhaustive boundary square
+def square_pool():
+    """the fixed boundary pool B (no randomness): every ordered pair of it goes through every binary operation"""
+    pos = [1, 2, 3, 2**31 - 1, 2**31, 2**31 + 1, 2**32 - 1, 2**32, 2**32 + 1, 2**53 - 1, 2**53, 2**53 + 1, 2**62,
+           2**63 - 2, 2**63 - 1, 2**63, 2**63 + 1, 2**63 + 2, 2**64 - 1, 2**64, 2**64 + 1, 2**65, 2**127 - 1, 2**127, 2**128,
+           10**18, 10**19]
+    return sorted(set([0] + pos + [-v for v in pos]))     # contains -2^63 and -2^63 ± 1
+
+
+SQUARE_UNIT_BIN = ["add", "add_ref", "add_assign", "sub", "mul", "mul_assign", "rem", "rem_ref", "div", "div_floor", "div_ceil",
+                   "bitand", "bitor", "bitxor", "eq", "cmp"]
+SQUARE_POW_EXP = [0, 1, 2, 3, 5, 63, 64, 65]
+# language level: (name, template, model op or None, oracle)
+SQUARE_LANG_INT = [   # never an error value: one sequence literal per pair
+    ("b.add", "{a} + {b}", "b.add", lambda a, b: a + b), ("b.sub", "{a} - {b}", "b.sub", lambda a, b: a - b),
+    ("b.mul", "{a} * {b}", "b.mul", lambda a, b: a * b), ("b.bit_and", "bit_and({a}, {b})", "b.bit_and", lambda a, b: a & b),
+    ("b.bit_or", "bit_or({a}, {b})", "b.bit_or", lambda a, b: a | b), ("b.bit_xor", "bit_xor({a}, {b})", "b.bit_xor", lambda a, b: a ^ b),
+    ("b.cmp", "cmp({a}, {b})", "b.cmp", lambda a, b: (a > b) - (a < b)), ("lib.gcd", "gcd({a}, {b})", "lib.gcd", lambda a, b: math.gcd(a, b)),
+    ("lib.lcm", "lcm({a}, {b})", "lib.lcm", lambda a, b: abs(a * b) // math.gcd(a, b) if a and b else 0),
+    ("max", "max({a}, {b})", None, lambda a, b: max(a, b)), ("min", "min({a}, {b})", None, lambda a, b: min(a, b)),
+]
+SQUARE_LANG_BOOL = [
+    ("b.lt", "{a} < {b}", "b.lt", lambda a, b: a < b), ("b.gt", "{a} > {b}", "b.gt", lambda a, b: a > b),
+    ("b.le", "{a} <= {b}", "b.le", lambda a, b: a <= b), ("b.ge", "{a} >= {b}", "b.ge", lambda a, b: a >= b),
+    ("b.eq", "{a} == {b}", "b.eq", lambda a, b: a == b), ("b.ne", "{a} != {b}", "b.ne", lambda a, b: a != b),
+]
+SQUARE_LANG_DIV = [   # error value iff b == 0
+    ("b.div_floor", "div_floor({a}, {b})", "b.div_floor", lambda a, b: a // b),
+    ("b.div_ceil", "div_ceil({a}, {b})", "b.div_ceil", lambda a, b: -((-a) // b)),
+    ("b.mod", "{a} % {b}", "b.mod", lambda a, b: a % b),
+]
+_ELEM = re.compile(r"\((?:int [SL] -?\d+|bool (?:true|false)|float [0-9a-f]{16})\)")
+
+
+def run_model_par(lines, jobs=8):
+    """run_model over several xmodel processes (the square sends > 100k lines)"""
+    if len(lines) < 4000:
+        return run_model(lines)
+    size = (len(lines) + jobs - 1) // jobs
+    chunks = [lines[i:i + size] for i in range(0, len(lines), size)]
+    with ThreadPoolExecutor(max_workers=jobs) as ex:
+        res = list(ex.map(run_model, chunks))
+    return [r for c in res for r in c]
+
+
+def boundary_square(chk):
+    """EXHAUSTIVE: every ordered pair of the boundary pool B through every binary integer operation, at both levels,
+    three-way (implementation = Python exact integers = model).  Same in the quick and the thorough tier."""
+    B = square_pool()
+    pairs = [(a, b) for a in B for b in B]
+    # ---------------- LazyBigint directly
+    cases = []
+    for f in SQUARE_UNIT_BIN:
+        orc = UNIT_OPS[f][1]
+        for a, b in pairs:
+            cases.append((f, {"op": "int", "f": f, "a": str(a), "b": str(b)}, f"int {f} {a} {b}", orc(a, b), (a, b)))
+    for f, (ar, orc) in UNIT_OPS.items():
+        if ar == 1:
+            for a in B:
+                cases.append((f, {"op": "int", "f": f, "a": str(a)}, f"int {f} {a}", orc(a), (a,)))
+    for a in B:
+        for e in SQUARE_POW_EXP:
+            cases.append(("pow", {"op": "int", "f": "pow", "a": str(a), "b": str(e)}, f"int pow {a} {e}", tag(a ** e), (a, e)))
+    impl = run_harness([c[1] for c in cases])
+    model = run_model_par([c[2] for c in cases])
+    for (f, req, line, want, inp), ri, rm in zip(cases, impl, model):
+        chk.evaluations += 1
+        chk.count("square:unit:" + f)
+        got = "PANIC" if "panic" in ri else ri.get("r", json.dumps(ri))
+        gm = "PANIC" if rm.startswith("panic") else rm
+        if any(abs(x) > I64_MAX for x in inp):
+            chk.nontrivial.add(("sq", f) + tuple(inp))
+        if want == "PANIC":
+            if got != gm:
+                chk.violation(f"tie:square:unit:{f}:precondition", f"model/impl disagree outside the precondition of {f}{inp}: impl={got} model={gm}",
+                              {"harness": req, "model": line, "impl": got, "model_out": gm}, no_input=True)
+        elif got != want:
+            chk.violation(f"square:unit:{f}:{'panic' if got == 'PANIC' else 'wrong'}",
+                          f"LazyBigint {f}{inp} = {got if got != 'PANIC' else ri.get('panic')}, exact result is {want} (boundary square)",
+                          {"harness": req, "expected": want, "got": ri})
+        elif gm != got:
+            chk.violation(f"tie:square:unit:{f}", f"model disagrees with implementation (which is right) on {f}{inp}: model={gm} impl={got}",
+                          {"harness": req, "model": line, "impl": got, "model_out": gm}, no_input=True)
+    # ---------------- through the language: grouped expressions (one sequence literal per pair and family)
+    groups = []    # (expr, [(name, single_expr, model_line, want_dump, inputs)])
+    def grp(ops, a, b, conv):
+        items = [(nm, t.format(a=lit(a), b=lit(b)), (f"int {mo} {a} {b}" if mo else None), conv(o(a, b)), (a, b)) for nm, t, mo, o in ops]
+        groups.append(("[" + ", ".join(i[1] for i in items) + "]", items))
+    for a, b in pairs:
+        grp(SQUARE_LANG_INT, a, b, o_int)
+        grp(SQUARE_LANG_BOOL, a, b, o_bool)
+        if b != 0:
+            grp(SQUARE_LANG_DIV, a, b, o_int)
+            f = a / b
+            groups.append((f"{lit(a)} / {lit(b)}", [("true_div", f"{lit(a)} / {lit(b)}", None, fhex(f) if f != 0 else "ZERO", (a, b))]))
+        else:
+            for nm, t, mo, o in SQUARE_LANG_DIV + [("true_div", "{a} / {b}", None, None)]:
+                e = t.format(a=lit(a), b=lit(b))
+                groups.append((e, [(nm, e, (f"int {mo} {a} {b}" if mo else None), ERR, (a, b))]))
+    for a in B:
+        es = [e for e in SQUARE_POW_EXP if not (a == 0 and e == 0)]
+        items = [("b.pow", f"{lit(a)} ** {e}", f"int b.pow {a} {e}", o_int(a ** e), (a, e)) for e in es]
+        groups.append(("[" + ", ".join(i[1] for i in items) + "]", items))
+        items = [("b.neg", f"-{lit(a)}", f"int b.neg {a}", o_int(-a), (a,)), ("lib.abs", f"abs({lit(a)})", f"int lib.abs {a}", o_int(abs(a)), (a,)),
+                 ("lib.sign", f"sign({lit(a)})", f"int lib.sign {a}", o_int((a > 0) - (a < 0)), (a,)),
+                 ("b.hash", f"hash({lit(a)})", f"int b.hash {a}", o_int(a if 0 <= a < 2**64 else (a % 2**64 if fits(a) else abs(a) % 2**64)), (a,))]
+        groups.append(("[" + ", ".join(i[1] for i in items) + "]", items))
+        groups.append((f"to_str({lit(a)})", [("b.to_str", f"to_str({lit(a)})", f"int b.to_str {a}", dump_str(str(a)), (a,))]))
+        groups.append((f"to_float({lit(a)})", [("to_float", f"to_float({lit(a)})", None, to_float_oracle(a), (a,))]))
+    groups.append(("0 ** 0", [("b.pow", "0 ** 0", "int b.pow 0 0", ERR, (0, 0))]))
+    dumps = eval_exprs([g[0] for g in groups], chunk=40)
+    flat, redo = [], []     # flat: (item, impl_dump)
+    for (expr, items), d in zip(groups, dumps):
+        if len(items) == 1:
+            flat.append((items[0], d))
+            continue
+        parts = _ELEM.findall(d) if d.startswith("(seq") else []
+        if len(parts) == len(items):
+            flat.extend(zip(items, parts))
+        else:               # one element failed: evaluate the elements one by one to localise it
+            redo.extend(items)
+    if redo:
+        flat.extend(zip(redo, eval_exprs([i[1] for i in redo], chunk=20)))
+    mlines = [(k, it[2]) for k, (it, _) in enumerate(flat) if it[2]]
+    mres = dict(zip([k for k, _ in mlines], run_model_par([l for _, l in mlines])))
+    lang_ops_seen = set()
+    for k, ((name, expr, mline, want, inp), d) in enumerate(flat):
+        chk.evaluations += 1
+        chk.count("square:lang:" + name)
+        lang_ops_seen.add(name)
+        if any(abs(x) > I64_MAX for x in inp):
+            chk.nontrivial.add(("sq", name) + tuple(inp))
+        got = canon_impl(d)
+        if want == "ZERO":
+            want = got if got in ("(float 0000000000000000)", "(float 8000000000000000)") else "(float 0000000000000000)"
+        replay = {"src": f"let r = {expr};", "get": ["r"], "expected": want, "got": d}
+        if got != want:
+            kind = "panic" if got == "PANIC" else ("hang" if d == "hang" else "wrong")
+            chk.violation(f"square:lang:{name}:{kind}", f"{expr} evaluates to {d}; the exact result is {want} (boundary square)", replay)
+        elif k in mres and model_to_dump(mres[k]) != got:
+            chk.violation(f"tie:square:lang:{name}", f"model disagrees with the implementation (which matches the oracle) on {expr}: model={mres[k]} impl={d}",
+                          {"src": replay["src"], "model": mline, "model_out": mres[k], "impl": d}, no_input=True)
+    n_ops = len(SQUARE_UNIT_BIN) + len(SQUARE_LANG_INT) + len(SQUARE_LANG_BOOL) + len(SQUARE_LANG_DIV) + 1
+    return {"boundary_square": {"pool": len(B), "ops": n_ops, "pairs": len(pairs), "exhaustive": True,
+                                "unit_binary_ops": SQUARE_UNIT_BIN,
+                                "language_binary_ops": [o[0] for o in SQUARE_LANG_INT + SQUARE_LANG_BOOL + SQUARE_LANG_DIV] + ["true_div"],
+                                "unary_over_pool": sorted(k for k, v in UNIT_OPS.items() if v[0] == 1) + ["b.neg", "lib.abs", "lib.sign", "b.hash", "b.to_str", "to_float"],
+                                "pow_exponents": SQUARE_POW_EXP, "evaluations": len(cases) + len(flat),
+                                "note": "every ordered pair of the pool through every listed operation, in both tiers, three-way "
+                                        "(implementation = Python exact integers = model; max/min/true_div/to_float: implementation = Python)"}}
+
+
 def run(chk):
     rng = chk.rng
     quick = chk.tier == "quick"
@@ -384,6 +536,8 @@ def run(chk):
     ok = chk.prove()
     if not ok:
         handle_broken(chk)
+
+    square_cov = boundary_square(chk)
 
     pool = boundary_pool(rng, 24 if quick else 120)
     small_pool = [v for v in pool if abs(v) <= 2**65]
@@ -664,7 +818,8 @@ def run(chk):
 
     return chk.finish(rule="operand tuples over the boundary pool {0,±1,small,±2^31,±2^53,±2^62..2^65,±2^127,±2^128 and neighbours, random 1-400 bit} "
                            "for every LazyBigint operation (direct) and every integer builtin (through the language); "
-                           "non-trivial = distinct (operation, operands) with at least one operand outside the i64 range")
+                           "non-trivial = distinct (operation, operands) with at least one operand outside the i64 range; "
+                           "plus the exhaustive boundary square (coverage.boundary_square)", extra_cov=square_cov)
 
 
 def replay(path):
